@@ -8,6 +8,9 @@ from ..bounds import BoundsAnalysis
 from .c09 import emulator
 
 PROP = 'C13'
+TECHNIQUE = ('static analysis: ast + resolved call graph + path-sensitive must-facts; abstract execution of the slice branch; '
+             'symbolic evaluation of the reader entries behind the accessors over the polynomial index algebra (C13.11); '
+             'codec / error-handler table for the text header')
 EXPLANATION = (
     'Four structural necessary conditions; parity with segyio itself (a C extension) is not modelled. C13.1 accessor '
     'wiring: in every accessor class the triple (len_object, keys_object, values_function) carries one axis '
